@@ -57,7 +57,7 @@ def main():
             "evidence_file": "evidence/%s.json" % pid,
             "replay_cmd_template": "./verif explain {path}",
             "engine": "mirfacts+analysis",
-            "level_claimed": {"category": "other", "text": text + " Level 'other': static analysis — each rule instance is an obligation decided on the type-checked MIR of the current tree for all inputs/paths/configurations, sound relative to the stated trusted base; it is neither testing nor a machine-checked proof.", "design_ref": "DESIGN.md section " + ref},
+            "level_claimed": {"category": "other", "text": text + " Further necessary conditions were added during the build (mostly another property's rule repeated under this property's id after a seeded change showed that this check was silent); the complete, current list is the `coverage.explanation` of the evidence file and DESIGN.md section 3 'Rules added'. Level 'other': static analysis — each rule instance is an obligation decided on the type-checked MIR of the current tree for all inputs/paths/configurations, sound relative to the stated trusted base; it is neither testing nor a machine-checked proof.", "design_ref": "DESIGN.md section " + ref},
             "level_note": "Trusted: rustc MIR construction/drop elaboration/trait resolution; the models of ~70 std functions (analysis/models.py); the ISA decode tables (analysis/isa.py); OS primitives behave as documented. No repository code is executed.",
             "technique": tech,
         })
